@@ -1,16 +1,23 @@
-(* C07 - the claim about calls and histories: every call listed in op_pre keeps the rules, hence every history of such
-   calls does. *)
+(* C07 - the claim about calls and histories: every building call keeps the rules under its precondition op_pre, hence
+   every history of such calls does. *)
 From Coq Require Import String List NArith ZArith Bool Arith Lia.
 From FIM Require Import Base.Str Gen.Rules Model.T7Graph Model.T7Ops Model.T7WF Model.T7Steps Model.T7Rel
      Proofs.T7Tables Proofs.T7WFRefl Proofs.T7Frame Proofs.T7Units Proofs.T7Api Proofs.T7Api2 Proofs.T7Api3
      Proofs.T7RelUnits Proofs.T7RelRun Proofs.T7RelCp Proofs.T7Api4 Proofs.T7RelAdd Proofs.T7Api5 Proofs.T7Api6
-     Proofs.T7Rem Proofs.T7Rem2 Proofs.T7Rem3 Proofs.T7Rem4 Proofs.T7Rem5.
+     Proofs.T7Rem Proofs.T7Rem2 Proofs.T7Rem3 Proofs.T7Rem4 Proofs.T7Rem5 Proofs.T7AddNs Proofs.T7AddFac.
 Import ListNotations.
 
 Lemma resolve_cls g k x : resolve g k x = true -> cls_is g x k = true.
 Proof.
   unfold resolve, get_node, cls_is, cls_of. destruct (find_nodes g x) as [|n [|m l]]; try discriminate.
   intro H. apply andb_true_iff in H as [H _]. exact H.
+Qed.
+
+Lemma need_all_cls k : forall l s s' (u : unit), for_each l (need k) s = (s', Ok u) -> forall j, In j l -> cls_is (sg s) j k = true.
+Proof.
+  induction l as [|x l IH]; intros s s' u H j Hj; [destruct Hj|]. simpl in H.
+  apply bind_inv in H as [[s1 [[] [H1 H2]]]|[e [_ Q]]]; [|discriminate Q].
+  apply need_val in H1 as [-> H1]. destruct Hj as [<-|Hj]; [apply resolve_cls; exact H1 | eapply IH; eauto].
 Qed.
 
 Lemma run_op_preserves sub fl hint o s s' r :
@@ -20,8 +27,26 @@ Proof.
     try (unfold rem_pre in P; apply andb_true_iff in P as [P Q4]; apply andb_true_iff in P as [P Q3]; apply andb_true_iff in P as [Q1 Q2]).
   - (* remove_node *) eapply api_t_remove_node; eauto.
   - (* node.remove_component *) peel R W. eapply api_node_remove_component; eauto.
+  - (* add_facility *) eapply api_add_facility; eauto.
   - (* remove_facility *) eapply api_t_remove_facility; eauto.
+  - (* add_switch *) eapply api_add_switch; eauto.
   - (* remove_switch *) eapply api_t_remove_switch; eauto.
+  - (* add_network_service *)
+    apply andb_true_iff in P as [P1 P2].
+    apply bind_reads in R; [| apply (reads_for_each_need ifs) ].
+    destruct R as [[s1 [u [Hm [Hg R]]]] | [e [Hr Hg]]]; [| rewrite Hg; exact W].
+    destruct ifs as [|i0 ifs'].
+    { rewrite <- Hg in W. eapply (api_add_ns_nil fl); [exact W | apply service_type_ok; exact P1 | exact R]. }
+    unfold conn_pre in P2. apply andb_true_iff in P2 as [P2 Q4]. apply andb_true_iff in P2 as [P2 Q3]. apply andb_true_iff in P2 as [Q1 Q2].
+    assert (HI : forall j, In j (i0 :: ifs') -> cls_is (sg s) j KCP = true /\ typ_is (sg s) j sServicePort = false).
+    { intros j Hj. split; [|rewrite forallb_forall in Q4; apply negb_true_iff; apply Q4; exact Hj].
+      apply (need_all_cls _ _ _ _ _ Hm j Hj). }
+    rewrite <- Hg in W, Q3, HI.
+    eapply api_add_ns; [exact W | exact Q3 | apply service_type_ok; exact P1 | exact Q1 | exact Q2 | exact HI | exact R].
+  - (* add_port_mirror_service; the side conditions were split above *)
+    peel R W. peel R W. apply resolve_cls in Hm. simpl in Q4. rewrite andb_true_r in Q4. apply negb_true_iff in Q4.
+    eapply api_add_ns; [exact W | exact Q3 | apply port_mirror_type_ok | exact Q1 | exact Q2 | | exact R].
+    intros j [<-|[]]. auto.
   - (* remove_network_service *) eapply api_t_remove_ns; eauto.
   - (* node.remove_network_service *) peel R W. eapply api_node_remove_ns; eauto.
   - (* connect_interface *)
@@ -43,7 +68,7 @@ Proof.
     peel R W. eapply api_remove_child; eauto.
 Qed.
 
-Theorem step_preserves_partial sub fl g o drawn hint g' out :
+Theorem step_preserves sub fl g o drawn hint g' out :
   WF g -> op_pre fl g o = true -> step sub fl g o drawn hint = (g', out) -> WF g'.
 Proof.
   intros W P H. unfold step in H.
@@ -51,11 +76,11 @@ Proof.
     eapply (run_op_preserves sub fl hint o (mkSt g drawn)); eauto.
 Qed.
 
-Theorem histories_partial sub fl h : forall g, WF g -> pre_along sub fl g h = true -> WF (run_hist sub fl g h).
+Theorem histories sub fl h : forall g, WF g -> pre_along sub fl g h = true -> WF (run_hist sub fl g h).
 Proof.
   induction h as [|[[o dr] hi] h IH]; intros g W P; simpl in *; [exact W|].
   apply andb_true_iff in P as [P1 P2]. apply IH; [|exact P2].
-  destruct (step sub fl g o dr hi) as [g' out] eqn:E. simpl. eapply step_preserves_partial; eauto.
+  destruct (step sub fl g o dr hi) as [g' out] eqn:E. simpl. eapply step_preserves; eauto.
 Qed.
 
 Lemma WF_empty : WF empty_graph.
